@@ -5,10 +5,12 @@
 
    Additional entries:
       "R"   {kernel_quantizer: qA, recurrent_quantizer: qR, bias_quantizer: bA, state_quantizer: qS}     (recurrent)
+      "RA"  "R" plus recurrent_activation_quantizer: aR   (LSTM / GRU gates; a SimpleRNN has no gate activation)
       "SP"  {depthwise_quantizer: qA, pointwise_quantizer: qB, bias_quantizer: bA}                       (separable)
       "P"   {average_quantizer: qP}        "PB"  {average_quantizer: qP, activation_quantizer: aB}       (pooling)
    "A" and "B" keep their meaning for Conv1D and recurrent layers (kernel/bias resp. kernel/activation).
-   Result records: [cls, kq, bq, rq, sq, pq, act]  (rq recurrent, sq state, pq pointwise quantizer). *)
+   Result records: [cls, kq, bq, rq, sq, pq, act, ra]  (rq recurrent, sq state, pq pointwise quantizer, ra the gate
+   activation of LSTM / GRU: "none" = left as it was). *)
 EXTENDS ModelGraph
 
 RnnKinds == {"SimpleRNN", "LSTM", "GRU", "Bidirectional"}      \* Bidirectional(LSTM): both directions get the same record
@@ -20,10 +22,10 @@ NewKinds == {"Conv1D"} \cup RnnKinds \cup SepKinds \cup PoolKinds
 UserKinds == {"User"}
 QNameX(kind) == IF kind \in NewKinds THEN "Q" \o kind ELSE QName(kind)
 LookupX(dict, layer) == IF dict[layer.name] # "absent" THEN dict[layer.name] ELSE dict[QNameX(layer.kind)]
-Lift(r) == [cls |-> r.cls, kq |-> r.kq, bq |-> r.bq, rq |-> "none", sq |-> "none", pq |-> "none", act |-> r.act]
+Lift(r) == [cls |-> r.cls, kq |-> r.kq, bq |-> r.bq, rq |-> "none", sq |-> "none", pq |-> "none", act |-> r.act, ra |-> "none"]
 KeepX(layer) == Lift(Keep(layer))
-KernelX(e) == IF e \in {"A", "R", "SP"} THEN "qA" ELSE IF e = "B" THEN "qB" ELSE "none"
-BiasX(e) == IF e \in {"A", "R", "SP"} THEN "bA" ELSE "none"
+KernelX(e) == IF e \in {"A", "R", "RA", "SP"} THEN "qA" ELSE IF e = "B" THEN "qB" ELSE "none"
+BiasX(e) == IF e \in {"A", "R", "RA", "SP"} THEN "bA" ELSE "none"
 
 DesignLayerX(dict, layer) ==
   IF layer.kind \in UserKinds THEN KeepX(layer) ELSE
@@ -34,11 +36,12 @@ DesignLayerX(dict, layer) ==
        ELSE [KeepX(layer) EXCEPT !.cls = "QConv1D", !.kq = KernelX(e), !.bq = IF layer.bias THEN BiasX(e) ELSE "none",
                                  !.act = IF e = "B" THEN "aB" ELSE ByBits(layer.act)]
   ELSE IF layer.kind \in RnnKinds THEN
-       IF e \notin {"A", "B", "R"} THEN KeepX(layer)
+       IF e \notin {"A", "B", "R", "RA"} THEN KeepX(layer)
        ELSE [KeepX(layer) EXCEPT !.cls = "Q" \o layer.kind, !.kq = KernelX(e),
                                  !.bq = IF layer.bias THEN BiasX(e) ELSE "none",
-                                 !.rq = IF e = "R" THEN "qR" ELSE "none", !.sq = IF e = "R" THEN "qS" ELSE "none",
-                                 !.act = IF e = "B" THEN "aB" ELSE ByBits(layer.act)]
+                                 !.rq = IF e \in {"R", "RA"} THEN "qR" ELSE "none", !.sq = IF e \in {"R", "RA"} THEN "qS" ELSE "none",
+                                 !.act = IF e = "B" THEN "aB" ELSE ByBits(layer.act),
+                                 !.ra = IF e = "RA" /\ layer.kind # "SimpleRNN" THEN "aR" ELSE "none"]
   ELSE IF layer.kind \in SepKinds THEN
        IF e # "SP" THEN KeepX(layer)
        ELSE [KeepX(layer) EXCEPT !.cls = "Q" \o layer.kind, !.kq = "qA", !.pq = "qB",
